@@ -18,7 +18,7 @@ func init() {
 		ID: "C08", Fn: c08,
 		Rule:        "one evaluation = one complete phased iteration (GetNextMove until MoveNone) compared as a multiset with the batch generator for the same mode, under a generated generator state (PV move drawn from every stage of the position's pseudo-legal set, killers members/non-members, random history and counter-move tables, generator reused across positions with/without ResetOnDemand, interleaved and abandoned iterations); plus partition NonQuiet+Quiet=All for both values of UsePromNonQuiet, evasion-mode sets (batch, phased, and phased on a generator that last worked - partially or to the end - on another in-check position without reset) against refchess pseudo-legality/legality, HasLegalMove against refchess; distinct = distinct (position, mode, generator state) triples",
 		Assumptions: []string{"PV moves are drawn from the position's pseudo-legal set (SetPvMove with an unplayable move is outside the property)", "refchess pseudo-legal definition of Appendix A"},
-		Required:    []string{"phased_iterations", "pv_from_capture", "pv_from_quiet", "pv_from_promotion", "pv_from_castling", "pv_from_king", "pv_last_of_stage", "killers_nonmember", "history_tables", "reused_without_reset", "interleaved", "abandoned", "evasion_positions", "evasion_double_check", "evasion_reused_without_reset", "partition_checks", "haslegal_checks", "haslegal_false", "only_promotions_legal", "hemmed_in_terminal_positions"},
+		Required:    []string{"phased_iterations", "pv_from_capture", "pv_from_quiet", "pv_from_promotion", "pv_from_castling", "pv_from_king", "pv_last_of_stage", "killers_nonmember", "history_tables", "reused_without_reset", "interleaved", "abandoned", "evasion_positions", "evasion_double_check", "evasion_reused_without_reset", "partition_checks", "haslegal_checks", "haslegal_false", "only_promotions_legal", "hemmed_in_terminal_positions", "only_double_push_legal"},
 		MinEvals:    20000,
 	})
 }
@@ -76,6 +76,16 @@ var c08Hemmed = []string{
 	"k7/8/8/8/8/p1p3q1/P1P5/RB5K w - - 0 1",
 	"k7/8/8/8/1p6/1Pp3q1/2P5/N6K w - - 0 1",
 	"k7/8/8/8/8/1p6/1P4r1/B5rK w - - 0 1",
+}
+
+var c08OnlyDoublePush = []string{
+	"1q6/q7/k7/3q4/3q4/8/4P3/7K w - - 0 20",
+	"6q1/6k1/5b2/6q1/1r6/8/3P3q/K7 w - - 0 20",
+	"8/q2k2r1/4r3/8/6q1/8/3P1K2/7q w - - 0 20",
+	"8/6q1/4k1q1/3b4/5bn1/8/3P4/K7 w - - 0 20",
+	"2k5/7q/8/4q3/8/8/n2P2n1/K1n5 w - - 0 20",
+	"1k1n4/8/b4q2/6q1/8/8/2P1K3/7r w - - 0 20",
+	"b1b5/8/3k4/8/8/7r/4P1K1/3q2b1 w - - 0 20",
 }
 
 func c08(c *Ctx) {
@@ -375,6 +385,17 @@ func c08(c *Ctx) {
 		for _, b := range []*rc.Board{rc.MustFEN(f), rc.MustFEN(f).Mirror()} {
 			rep.Inc("hemmed_in_terminal_positions")
 			probe(engPos(b.FEN()), b, SubRng(c.Seed, "c08/hemmed", i), map[string]interface{}{"kind": "hemmed-in officers, no legal move"})
+		}
+	}
+	// positions (found by a random search with refchess) whose only legal move is a double
+	// pawn push that interposes: the quick test has to find exactly that move
+	for i, f := range c08OnlyDoublePush {
+		if !c.Mine(i) {
+			continue
+		}
+		for _, b := range []*rc.Board{rc.MustFEN(f), rc.MustFEN(f).Mirror()} {
+			rep.Inc("only_double_push_legal")
+			probe(engPos(b.FEN()), b, SubRng(c.Seed, "c08/dpush", i), map[string]interface{}{"kind": "only legal move is a double pawn push"})
 		}
 	}
 	nPlay := c.Size(150, 40000)
